@@ -3,6 +3,7 @@ package main
 // Store-discovery rules ST1, ST2 and determinism/purity/table rules DT2..DT5.
 
 import (
+	os_ "os"
 	"fmt"
 	"go/constant"
 	"go/token"
@@ -182,13 +183,86 @@ func ruleST1(c *Ctx) {
 type absState struct {
 	c    *Ctx
 	memo map[ssa.Value]int // 0 unknown/in progress, 1 abs, 2 not
+	bind []map[*ssa.Parameter]ssa.Value // parameters of the helpers being looked into, bound to the arguments of the call in hand
+	inProg map[ssa.Value]bool
 }
 
 func (a *absState) isAbs(v ssa.Value, d int) bool {
 	if v == nil || d > 14 {
 		return false
 	}
+	// a field of a receiver/parameter bound to this call's argument (s.dir inside st.repoDir()): the field of the very
+	// struct that argument is, read before the general resolution merges every object of the type
+	if len(a.bind) > 0 {
+		if ld, isLd := strip(v).(*ssa.UnOp); isLd && ld.Op == token.MUL {
+			if fa, isFA := ld.X.(*ssa.FieldAddr); isFA {
+				if prm, isPrm := strip(fa.X).(*ssa.Parameter); isPrm {
+					for i := len(a.bind) - 1; i >= 0; i-- {
+						arg, bound := a.bind[i][prm]
+						if !bound {
+							continue
+						}
+						addrOriginsWithEnv = true
+						os, ok := fieldOfAddr(strip(arg), fa.Field, ld, 0)
+						if !ok {
+							os, ok = fieldOfAddr(resolve(arg), fa.Field, ld, 0)
+						}
+						addrOriginsWithEnv = false
+						if !ok || len(os) == 0 {
+							break
+						}
+						saved := a.bind
+						a.bind = a.bind[:i]
+						res := true
+						for _, o := range os {
+							if len(o.E) > 0 {
+								b := map[*ssa.Parameter]ssa.Value{}
+								for k, val := range o.E {
+									b[k] = val
+								}
+								a.bind = append(a.bind, b)
+								if !a.isAbs(o.V, d+1) {
+									res = false
+								}
+								a.bind = a.bind[:len(a.bind)-1]
+							} else if !a.isAbs(o.V, d+1) {
+								res = false
+							}
+						}
+						a.bind = saved
+						return res
+					}
+				}
+			}
+		}
+	}
 	v = resolve(v)
+	// inside a helper that is judged for one particular call (a path built by storeDirIn(dir)): its parameters are that
+	// call's arguments, not everything any caller ever hands it
+	if prm, ok := v.(*ssa.Parameter); ok {
+		for i := len(a.bind) - 1; i >= 0; i-- {
+			if arg, bound := a.bind[i][prm]; bound {
+				saved := a.bind
+				a.bind = a.bind[:i]
+				res := a.isAbs(arg, d+1)
+				a.bind = saved
+				return res
+			}
+		}
+	}
+	if len(a.bind) > 0 {
+		// context-dependent: not memoised, but loops (a directory variable walking up) are still cut optimistically
+		if a.inProg == nil {
+			a.inProg = map[ssa.Value]bool{}
+		}
+		if a.inProg[v] {
+			return true
+		}
+		a.inProg[v] = true
+		res := a.compute(v, d)
+		delete(a.inProg, v)
+		return res
+	}
 	if m, ok := a.memo[v]; ok {
 		return m == 1 || m == 0 // in-progress cycles (loops walking up) are optimistic: decided by the other edges
 	}
@@ -202,7 +276,33 @@ func (a *absState) isAbs(v ssa.Value, d int) bool {
 	return res
 }
 
+// callAbs: result idx of this call of a module function is absolute, with the callee's parameters bound to the call's
+// arguments.
+func (a *absState) callAbs(cl *ssa.Call, cal *ssa.Function, idx int, d int) bool {
+	if len(a.bind) > 6 {
+		return false
+	}
+	b := map[*ssa.Parameter]ssa.Value{}
+	for i, prm := range cal.Params {
+		if i < len(cl.Call.Args) {
+			b[prm] = cl.Call.Args[i]
+		}
+	}
+	a.bind = append(a.bind, b)
+	res := a.returnsAbs(cal, idx, d)
+	a.bind = a.bind[:len(a.bind)-1]
+	return res
+}
+
 func (a *absState) compute(v ssa.Value, d int) bool {
+	res := a.compute0(v, d)
+	if !res && os_.Getenv("DBG_ABS") != "" {
+		fmt.Fprintf(os_.Stderr, "DBG notabs d=%d bind=%d %T %s\n", d, len(a.bind), v, a.c.canon(v))
+	}
+	return res
+}
+
+func (a *absState) compute0(v ssa.Value, d int) bool {
 	c := a.c
 	switch x := v.(type) {
 	case *ssa.Extract:
@@ -215,7 +315,7 @@ func (a *absState) compute(v ssa.Value, d int) bool {
 			return true
 		}
 		if cal := calleeOf(&cl.Call); cal != nil && c.InModule(cal) {
-			return a.returnsAbs(cal, x.Index, d)
+			return a.callAbs(cl, cal, x.Index, d)
 		}
 		return false
 	case *ssa.Call:
@@ -228,7 +328,7 @@ func (a *absState) compute(v ssa.Value, d int) bool {
 			return a.isAbs(x.Call.Args[0], d+1)
 		}
 		if cal := calleeOf(&x.Call); cal != nil && c.InModule(cal) {
-			return a.returnsAbs(cal, 0, d)
+			return a.callAbs(x, cal, 0, d)
 		}
 		return false
 	case *ssa.Phi:
@@ -253,11 +353,44 @@ func (a *absState) compute(v ssa.Value, d int) bool {
 		if x.Op == token.MUL {
 			if _, isField := x.X.(*ssa.FieldAddr); isField {
 				// a field of a context struct: every value stored into it must be absolute
-				os, ok := fieldOrigins(x, 0)
+				var os []originVal
+				ok := false
+				// the field of a receiver/parameter that is bound to this call's argument: the struct that argument is
+				if fa, isFA := x.X.(*ssa.FieldAddr); isFA {
+					if prm, isPrm := strip(fa.X).(*ssa.Parameter); isPrm {
+						for i := len(a.bind) - 1; i >= 0 && !ok; i-- {
+							if arg, bound := a.bind[i][prm]; bound {
+								addrOriginsWithEnv = true
+								os, ok = fieldOfAddr(strip(arg), fa.Field, x, 0)
+								if !ok {
+									os, ok = fieldOfAddr(resolve(arg), fa.Field, x, 0)
+								}
+								addrOriginsWithEnv = false
+							}
+						}
+					}
+				}
+				if !ok {
+					os, ok = fieldOrigins(x, 0)
+				}
 				if !ok || len(os) == 0 {
 					return false
 				}
 				for _, o := range os {
+					// a value written inside a constructor is read with the constructor's parameters bound to its call
+					if len(o.E) > 0 {
+						b := map[*ssa.Parameter]ssa.Value{}
+						for k, v := range o.E {
+							b[k] = v
+						}
+						a.bind = append(a.bind, b)
+						res := a.isAbs(o.V, d+1)
+						a.bind = a.bind[:len(a.bind)-1]
+						if !res {
+							return false
+						}
+						continue
+					}
 					if !a.isAbs(o.V, d+1) {
 						return false
 					}
@@ -1341,6 +1474,28 @@ func (c *Ctx) replayFactLabel(bf branchFact) string {
 		if b, n, ok := fieldLoad(resolveEnv(key, a.Env)); ok {
 			return namedTypeName(b.Type()) + "." + n + "==const"
 		}
+	}
+	// the map a lookup reads, named by the Graph field it is (also when replay keeps it in a field or variable of its own:
+	// r.meta is graph.Meta)
+	fieldLoadOrig := fieldLoad
+	fieldLoad := func(v ssa.Value) (ssa.Value, string, bool) {
+		b, n, ok := fieldLoadOrig(v)
+		if ok && namedTypeName(b.Type()) == "ergo.Graph" {
+			return b, n, ok
+		}
+		if b2, n2, ok2 := fieldLoadOrig(resolve(v)); ok2 && namedTypeName(b2.Type()) == "ergo.Graph" {
+			return b2, n2, true
+		}
+		if mm, isMM := resolve(v).(*ssa.MakeMap); isMM && mm.Referrers() != nil {
+			for _, r := range *mm.Referrers() {
+				if st, isSt := r.(*ssa.Store); isSt && st.Val == ssa.Value(mm) {
+					if fa, isFA := st.Addr.(*ssa.FieldAddr); isFA && namedTypeName(fa.X.Type()) == "ergo.Graph" {
+						return fa.X, fieldName(fa.X.Type(), fa.Field), true
+					}
+				}
+			}
+		}
+		return b, n, ok
 	}
 	switch a.Kind {
 	case "bool":
